@@ -202,6 +202,47 @@ func (r *c10Run) pickRef(kind string) string {
 	case "admin":
 		return r.admin
 	case "unknown":
+		// half of the unknown values are near misses of a live token: pattern characters, case variants, prefixes,
+		// one changed character — values a sloppy comparison (LIKE, case-insensitive collation, prefix match) would accept
+		if len(r.issued) > 0 && r.rng.Intn(2) == 0 {
+			t := r.issued[r.rng.Intn(len(r.issued))]
+			var cand string
+			switch r.rng.Intn(8) {
+			case 0:
+				cand = "%"
+			case 1:
+				cand = strings.Repeat("_", len(t))
+			case 2:
+				cand = t[:len(t)/2] + "%"
+			case 3:
+				cand = swapCase(t)
+			case 4:
+				cand = t[:len(t)-1]
+			case 5:
+				cand = t + "x"
+			case 6:
+				b := []byte(t)
+				i := r.rng.Intn(len(b))
+				if b[i] == 'a' {
+					b[i] = 'b'
+				} else {
+					b[i] = 'a'
+				}
+				cand = string(b)
+			default:
+				cand = "%" + t[len(t)/2:]
+			}
+			known := cand == r.admin || cand == ""
+			for _, x := range r.issued {
+				if x == cand {
+					known = true
+				}
+			}
+			if !known {
+				r.c.R.Count("unknown:near-miss of a live token", 1)
+				return cand
+			}
+		}
 		return c09RandToken(r.rng, 32)
 	case "empty":
 		return ""
@@ -281,7 +322,7 @@ func (r *c10Run) exec(op string) error {
 		return r.sweep(op)
 	case "revoke":
 		t := r.pickRef(f[1])
-		d, resp := r.httpDo("DELETE", c09Prefix+"/access/"+t, adminHdr, true)
+		d, resp := r.httpDo("DELETE", c09Prefix+"/access/"+url.PathEscape(t), adminHdr, true)
 		r.c.R.OracleChecked++
 		if d != "pass" || resp.Status != 200 {
 			r.fail("DELETE /api/v1/access/<token> with the admin token did not answer 200", "200", fmt.Sprint(resp.Status, " ", resp.Body), "c10-revoke-failed:"+f[1]+":"+strconv.Itoa(resp.Status))
@@ -302,7 +343,7 @@ func (r *c10Run) exec(op string) error {
 	case "revokebad":
 		hdr, set := r.badHeader(f[1])
 		t := r.pickRef(f[2])
-		d, resp := r.httpDo("DELETE", c09Prefix+"/access/"+t, hdr, set)
+		d, resp := r.httpDo("DELETE", c09Prefix+"/access/"+url.PathEscape(t), hdr, set)
 		r.c.R.OracleChecked++
 		if !strings.HasPrefix(d, "401") {
 			r.fail("DELETE /api/v1/access/<token> without the admin credential was not answered 401", "401", fmt.Sprint(resp.Status, " ", resp.Body), "c10-nonadmin-revoke-accepted:"+f[1])
@@ -588,4 +629,17 @@ func runC10(c *Ctx) error {
 	}
 	c.R.ModelOps = l.Ops
 	return nil
+}
+
+func swapCase(s string) string {
+	b := []byte(s)
+	for i, c := range b {
+		switch {
+		case c >= 'a' && c <= 'z':
+			b[i] = c - 32
+		case c >= 'A' && c <= 'Z':
+			b[i] = c + 32
+		}
+	}
+	return string(b)
 }
